@@ -56,7 +56,7 @@ def check(run):
         k = r["kind"]
         if k == "seg" or k == "segx":
             evaluations += 1
-            ln = r["desc"]["len"] if k == "seg" else r["len"]
+            ln = r["desc"]["len"] if k == "seg" else r.get("plen", r["len"])
             ident = {"payload": r.get("desc") or {"class": r["class"], "len": r["len"], "seed": r["seed"]}, "self_contained": r["sc"], "compressor": r["comp"]}
             if not r["enc_ok"]:
                 findings.append(dict(ident, kind="encode-failed", what="EncodeSegment fails on a %d-byte payload (%s)" % (ln, r["comp"])))
@@ -68,7 +68,8 @@ def check(run):
             nontrivial.add((k, str(ident)))
             if not d["payload_eq"]:
                 diag = r.get("diag", {})
-                findings.append(dict(ident, kind=diag.get("kind", "roundtrip-payload-differs"), diagnosis=diag,
+                extra = {"class": "lz4-offset-65536", "algorithm": "lz4"} if diag.get("kind") == "lz4-block-corrupt-above-64KiB" else {}
+                findings.append(dict(ident, kind=diag.get("kind", "roundtrip-payload-differs"), diagnosis=diag, **extra,
                                      what="segment round trip returns a different payload without error (%d bytes, %s); first difference at offset %s" % (ln, r["comp"], diag.get("first_diff"))))
                 continue
             exp_clen = 0
